@@ -64,7 +64,8 @@ PoolHist == { Base("r1"), [Base("r1") EXCEPT !.path = <<"dyn", "/X/@m">>],
 PoolHistQ == { Base("r1"), [Base("r1") EXCEPT !.path = <<"dyn", "/X/@m">>],
                [Base("r2") EXCEPT !.path = <<"dyn", "/X/@m/y">>], [Base("r2") EXCEPT !.host = <<"dyn", "@sub.example.com">>],
                [Base("r3") EXCEPT !.host = <<"static", "example.com">>, !.ips = <<<<"in", "10.0.0.0/8">>, <<"not_in", "10.1.0.0/16">>>>],
-               [Base("r3") EXCEPT !.path = <<"dyn", "/x/@m">>] }
+               \* a rule filed under several buckets of one layer (two methods), and a second plain rule sharing r1's static path
+               [Base("r3") EXCEPT !.path = <<"dyn", "/x/@m">>, !.methods = <<"GET", "POST">>], Base("r4") }
 
 \* mkt (ignore marketing parameters) follows ipc: the probes carry no marketing parameter, the flag only selects the
 \* code path of the request normalisation (with both off the URL is not rewritten at all)
